@@ -78,7 +78,35 @@ async fn one_response(ctx: &Arc<RunCtx>, sq: &Arc<Square>) {
     ctx.ev_with("eds.resp", sq.width as u64, (sq.class << 32) | (status as u64), || format!("app={app:?} shares={shares} plan={plan:?}"));
     let (r, h) = preloaded(ctx, plan, stream.clone());
     let mark = panic_mark(ctx);
-    let dah = sq.dah.clone();
+    // The header the client holds: normally the one committing to this square; sometimes one
+    // whose DAH is not the square's (a peer answering with the square of another block, or a
+    // proposer whose row and column roots disagree): single roots replaced, all column roots
+    // foreign, or the DAH of another square of the same width.
+    let mut dah = sq.dah.clone();
+    let dah_fault = ctx.weighted("eds.header_dah", &[12, 1, 1, 1, 1]);
+    if dah_fault != 0 {
+        let mut rows = sq.dah.row_roots().to_vec();
+        let mut cols = sq.dah.column_roots().to_vec();
+        let n = rows.len();
+        let i = ctx.choose("eds.dah_index", n as u32) as usize;
+        let j = (i + 1 + ctx.choose("eds.dah_other", (n - 1) as u32) as usize) % n;
+        match dah_fault {
+            1 => rows[i] = rows[j].clone(),
+            2 => cols[i] = cols[j].clone(),
+            3 => cols = rows.clone(),
+            _ => {
+                rows.swap(i, j);
+                cols.swap(i, j);
+            }
+        }
+        let forged = DataAvailabilityHeader::new_unchecked(rows, cols);
+        if forged != sq.dah {
+            dah = forged;
+            ctx.fault("header_dah_is_not_the_squares");
+        }
+    }
+    let dah_is_squares = dah == sq.dah;
+    let dah_used = dah.clone();
     let height = sq.height;
     let task = tokio::spawn(async move {
         let mut r = r;
@@ -174,16 +202,19 @@ async fn one_response(ctx: &Arc<RunCtx>, sq: &Arc<Square>) {
                             }
                         }
                     }
-                    let dah_ok = DataAvailabilityHeader::from_eds(eds) == sq.dah;
+                    let dah_ok = DataAvailabilityHeader::from_eds(eds) == dah_used;
                     if !same || !dah_ok {
                         ctx.violation("C09", "ok_is_original", "decode_eds",
                             format!("decode_eds accepted a square (width {w}) with ods_equal={same} dah_equal={dah_ok} for the header's DAH (width {})", sq.width));
                     }
                     ctx.oracle("C09.corrupted_rejected");
-                    if honest && app == sq.app {
+                    if honest && app == sq.app && dah_is_squares {
                         ctx.oracle("C09.honest_accepted");
                     }
-                    if !honest {
+                    if !dah_is_squares {
+                        // any acceptance against a DAH that is not the square's was flagged above
+                        ctx.probe("accepted_against_foreign_dah");
+                    } else if !honest {
                         ctx.violation("C09", "corrupted_rejected", "decode_eds",
                             format!("decode_eds accepted a payload of {} bytes that differs from the honest one ({} bytes); link faults: {fired:?}", data.len(), sq.payload.len()));
                     } else if app != sq.app {
@@ -193,7 +224,10 @@ async fn one_response(ctx: &Arc<RunCtx>, sq: &Arc<Square>) {
                     }
                 }
                 Err(e) => {
-                    if honest && app == sq.app {
+                    if !dah_is_squares {
+                        ctx.oracle("C09.corrupted_rejected");
+                        ctx.probe("payload_rejected_against_foreign_dah");
+                    } else if honest && app == sq.app {
                         ctx.oracle("C09.honest_accepted");
                         ctx.violation("C09", "honest_accepted", "decode_eds",
                             format!("decode_eds rejected the honest payload of a width-{} square (class {}): {e}", sq.width, sq.class));
